@@ -42,6 +42,24 @@ pub mod vx_set {
                     forall|i: int, j: int| 0 <= i < j < r@.len() ==> r@[i] != r@[j]
         { self.inner.into_iter().collect() }
     }
+    /// what the liveness hints of Work::ready_dependents need from the collection of dependents, whatever its type
+    /// (so that a change of the collection type is judged by the obligations, not rejected by the type checker)
+    pub trait VxColl<T> {
+        spec fn vx_members(&self) -> Set<T>;
+        spec fn vx_order(&self) -> Seq<T>;
+        proof fn vx_lemma_order(&self)
+            ensures forall|x: T| #[trigger] self.vx_order().contains(x) == self.vx_members().contains(x);
+    }
+    impl<T: std::hash::Hash + Eq> VxColl<T> for HashSet<T> {
+        open spec fn vx_members(&self) -> Set<T> { self@ }
+        open spec fn vx_order(&self) -> Seq<T> { self.order() }
+        proof fn vx_lemma_order(&self) { self.lemma_order(); }
+    }
+    impl<T> VxColl<T> for Vec<T> {
+        open spec fn vx_members(&self) -> Set<T> { self@.to_set() }
+        open spec fn vx_order(&self) -> Seq<T> { self@ }
+        proof fn vx_lemma_order(&self) {}
+    }
     impl<T: std::hash::Hash + Eq> IntoIterator for HashSet<T> {
         type Item = T;
         type IntoIter = std::vec::IntoIter<T>;
